@@ -175,6 +175,16 @@ fn call_ref<T: ShapesRef>(t: &mut T, op: &[i64], scratch: &mut Scratch) -> Vec<i
         7 => { let v = a(1) as u32; let o = if a(1) < 0 { None } else { Some(&v) }; let r = t.opr(o); let row = vec![7, r.map(|x| *x as i64).unwrap_or(-1), r.map(|x| (x as *const u32 == &v as *const u32) as i64).unwrap_or(-1)]; rel_last(&v as *const u32 as i64, true); row }
         8 => vec![8, if a(1) % 2 == 0 { t.into_(a(1) as u32) } else { t.into_(a(1) as u8) } as i64],
         9 => { let mut out = a(1) as u32; let p = &mut out as *mut u32 as i64; t.outp(&mut out); rel_last(p, false); vec![9, out as i64] }
+        10 if op.len() > 4 && a(4).rem_euclid(3) != 0 => {
+            // a COLLECTING sink — `(&mut vec).into()` (sink 1) or `from_extend()` (sink 2) — never asks to stop: every item the callee produces arrives
+            let k = a(3).rem_euclid(64);
+            CBMODE.with(|c| c.set((a(2).rem_euclid(3), k)));
+            let mut got: Vec<u32> = if a(1) % 2 == 0 { Vec::new() } else { Vec::with_capacity(3) };
+            let n = if a(4).rem_euclid(3) == 1 { t.cb((&mut got).into()) } else { use cglue::callback::FromExtend; t.cb(got.from_extend()) };
+            if got.len() != k as usize || n != k as usize { expect_fail(format!("callback argument: the callee had {} items for a collecting sink (a vector), produced {} and the vector received {}", k, n, got.len())); }
+            if got.iter().enumerate().any(|(i, x)| *x != i as u32 * 10) { expect_fail(format!("callback argument: the items arrived altered or out of order: {:?}", got)); }
+            let mut r = vec![10, n as i64]; r.extend(got.iter().map(|x| *x as i64)); r
+        }
         10 => {
             let stop = a(1) as usize; let mut got: Vec<u32> = vec![]; let mut after_stop = 0usize;
             let mut f = |x: u32| { if stop != 0 && got.len() >= stop { after_stop += 1; } got.push(x); got.len() != stop };
